@@ -319,10 +319,28 @@ func genMutations(w *bufio.Writer, r *hx.Rng, tier string) {
 		}{
 			{pay, 0}, {pay, len(pay)}, {zeros8, 8}, {append(append([]byte{}, zeros8...), pay...), 8 + len(pay)},
 			{append(append([]byte{}, zeros8...), pay...), 8}, {entry, 16}, {[]byte{0, 0, 0, 0}, 4}, {pay[:7], 7},
+			// further table entries of the other WIN_CERTIFICATE types (X.509, reserved, TS stack signed, private) and revisions:
+			// the certificate table is outside the image hash, so nothing but the verifier keeps unauthenticated entries out
+			{winCertEntry(0x0200, 0x0001, r.Bytes(24)), 32}, {winCertEntry(0x0200, 0x0004, r.Bytes(16)), 24},
+			{winCertEntry(0x0200, 0xEF00, r.Bytes(40)), 48}, {winCertEntry(0x0100, 0x0002, r.Bytes(8)), 16},
+			{winCertEntry(0x0200, 0x0003, pay), 8 + (len(pay)+7)/8*8}, {winCertEntry(0x0200, 0x0000, nil), 8},
 		} {
 			fmt.Fprintf(w, "PE append %s %s %d\n", hx.Hex(signed), hx.Hex(ap.extra), ap.grow)
 		}
 	}
+}
+
+// winCertEntry: one WIN_CERTIFICATE record (dwLength, wRevision, wCertificateType, payload, zero padding to 8)
+func winCertEntry(rev, typ uint16, payload []byte) []byte {
+	b := make([]byte, 8, 8+len(payload)+8)
+	binary.LittleEndian.PutUint32(b, uint32(8+len(payload)))
+	binary.LittleEndian.PutUint16(b[4:], rev)
+	binary.LittleEndian.PutUint16(b[6:], typ)
+	b = append(b, payload...)
+	for len(b)%8 != 0 {
+		b = append(b, 0)
+	}
+	return b
 }
 
 func Gen(w *bufio.Writer, seed uint64, tier string, prop string) {
